@@ -156,30 +156,54 @@ def run(ctx: Context) -> None:
             q = queries[fi.qualname]
             allocs = [n for n in walk_no_nested(fi.node) if isinstance(n, ast.Assign) and isinstance(n.value, ast.Call)
                       and callee(ctx, fi, n.value) in ('numpy.full', 'numpy.zeros')]
-            ctx.need('R07.2', len(allocs) == 1, f"{fi.short} allocates one mask array", fi)
-            al = allocs[0]
-            mname = norm_text(al.targets[0])
-            fillv = kwarg(al.value, 'fill_value') or (al.value.args[1] if len(al.value.args) > 1 else None)
-            ok_alloc = (norm_text(flow.resolve(al.value.args[0])).endswith(shape_txt.split('.', 1)[-1]) or norm_text(al.value.args[0]) == shape_txt) \
-                and (callee(ctx, fi, al.value) == 'numpy.zeros' or const_value(fillv, None) is False) and kwarg(al.value, 'order') is None
-            ctx.check('R07.2', ok_alloc, "the mask is a fresh C-ordered all-False array of the face grid's shape", fi, al, construct=f"{fi.short}: {norm_text(al)}")
-            ok_shape = shape_syms is not None and [s.show() for s in shape_syms] == [size_sym(h).show() for h in dims_handles]
-            ctx.check('R07.2', ok_shape, "that shape is (size of the first grid dimension, size of the second)", shape_fi if 'CFGrid' in qual else ak_fi,
-                      (shape_fi if 'CFGrid' in qual else ak_fi).node, construct=f"{shape_txt} = {[s.show() for s in shape_syms] if shape_syms else '?'}")
-            writes = [n for n in walk_no_nested(fi.node) if isinstance(n, ast.Assign) and isinstance(n.targets[0], ast.Subscript)
-                      and isinstance(n.targets[0].value, ast.Call) and isinstance(n.targets[0].value.func, ast.Attribute)
-                      and n.targets[0].value.func.attr in ('ravel', 'reshape') and norm_text(n.targets[0].value.func.value) == mname]
-            flat_ok = False
-            if len(writes) == 1:
-                w = writes[0]
-                view = w.targets[0].value
-                is_view = view.func.attr == 'ravel' and not view.args and not view.keywords
-                idx_ok = flow.resolve(w.targets[0].slice) is q
-                val_ok = const_value(w.value, None) is True
-                between = [n for n in walk_no_nested(fi.node) if isinstance(n, ast.Assign) and norm_text(n.targets[0]) == mname and al.lineno < n.lineno < w.lineno]
-                flat_ok = is_view and idx_ok and val_ok and not between
-            ctx.check('R07.2', flat_ok, "exactly the hit positions are set True through mask.ravel() (a view of the fresh array: linear index order)", fi,
-                      writes[0] if writes else fi.node, construct=f"{fi.short}: {norm_text(writes[0]) if writes else 'flat write not found'}")
+            # the same mask without an allocation: "is linear index n among the hits", for n in 0 .. size-1, in the grid's shape (C order)
+            isin_form = None
+            if not allocs:
+                for n in walk_no_nested(fi.node):
+                    if isinstance(n, ast.Assign) and isinstance(n.value, ast.Call) and isinstance(n.value.func, ast.Attribute) and n.value.func.attr == 'reshape' \
+                            and isinstance(n.value.func.value, ast.Call) and callee(ctx, fi, n.value.func.value) == 'numpy.isin':
+                        isin_form = n
+            if isin_form is not None:
+                mname = norm_text(isin_form.targets[0])
+                test_ = isin_form.value.func.value
+                positions = flow.resolve(test_.args[0]) if len(test_.args) == 2 and not test_.keywords else None
+                owner = shape_txt.rsplit('.', 1)[0]
+                ok_alloc = (isinstance(positions, ast.Call) and callee(ctx, fi, positions) == 'numpy.arange' and len(positions.args) == 1 and not positions.keywords
+                            and norm_text(flow.resolve(positions.args[0])) == f"{owner}.size" and len(isin_form.value.args) == 1 and not isin_form.value.keywords
+                            and norm_text(flow.resolve(isin_form.value.args[0])) == shape_txt)
+                ctx.check('R07.2', ok_alloc, "the mask is a fresh C-ordered all-False array of the face grid's shape", fi, isin_form, construct=f"{fi.short}: {norm_text(isin_form)[:120]}")
+                ok_shape = shape_syms is not None and [s_.show() for s_ in shape_syms] == [size_sym(h).show() for h in dims_handles]
+                ctx.check('R07.2', ok_shape, "that shape is (size of the first grid dimension, size of the second)", shape_fi if 'CFGrid' in qual else ak_fi,
+                          (shape_fi if 'CFGrid' in qual else ak_fi).node, construct=f"{shape_txt} = {[s_.show() for s_ in shape_syms] if shape_syms else '?'}")
+                flat_ok = ok_alloc and flow.resolve(test_.args[1]) is q
+                ctx.check('R07.2', flat_ok, "exactly the hit positions are set True through mask.ravel() (a view of the fresh array: linear index order)", fi, isin_form,
+                          construct=f"{fi.short}: position n is True iff n is among the hits, positions 0 .. size-1 reshaped in C order")
+            else:
+                ctx.need('R07.2', len(allocs) == 1, f"{fi.short} allocates one mask array", fi)
+            al = allocs[0] if allocs else None
+            mname = norm_text(al.targets[0]) if al is not None else mname
+            if al is not None:
+                fillv = kwarg(al.value, 'fill_value') or (al.value.args[1] if len(al.value.args) > 1 else None)
+                ok_alloc = (norm_text(flow.resolve(al.value.args[0])).endswith(shape_txt.split('.', 1)[-1]) or norm_text(al.value.args[0]) == shape_txt) \
+                    and (callee(ctx, fi, al.value) == 'numpy.zeros' or const_value(fillv, None) is False) and kwarg(al.value, 'order') is None
+                ctx.check('R07.2', ok_alloc, "the mask is a fresh C-ordered all-False array of the face grid's shape", fi, al, construct=f"{fi.short}: {norm_text(al)}")
+                ok_shape = shape_syms is not None and [s.show() for s in shape_syms] == [size_sym(h).show() for h in dims_handles]
+                ctx.check('R07.2', ok_shape, "that shape is (size of the first grid dimension, size of the second)", shape_fi if 'CFGrid' in qual else ak_fi,
+                          (shape_fi if 'CFGrid' in qual else ak_fi).node, construct=f"{shape_txt} = {[s.show() for s in shape_syms] if shape_syms else '?'}")
+                writes = [n for n in walk_no_nested(fi.node) if isinstance(n, ast.Assign) and isinstance(n.targets[0], ast.Subscript)
+                          and isinstance(n.targets[0].value, ast.Call) and isinstance(n.targets[0].value.func, ast.Attribute)
+                          and n.targets[0].value.func.attr in ('ravel', 'reshape') and norm_text(n.targets[0].value.func.value) == mname]
+                flat_ok = False
+                if len(writes) == 1:
+                    w = writes[0]
+                    view = w.targets[0].value
+                    is_view = view.func.attr == 'ravel' and not view.args and not view.keywords
+                    idx_ok = flow.resolve(w.targets[0].slice) is q
+                    val_ok = const_value(w.value, None) is True
+                    between = [n for n in walk_no_nested(fi.node) if isinstance(n, ast.Assign) and norm_text(n.targets[0]) == mname and al.lineno < n.lineno < w.lineno]
+                    flat_ok = is_view and idx_ok and val_ok and not between
+                ctx.check('R07.2', flat_ok, "exactly the hit positions are set True through mask.ravel() (a view of the fresh array: linear index order)", fi,
+                          writes[0] if writes else fi.node, construct=f"{fi.short}: {norm_text(writes[0]) if writes else 'flat write not found'}")
             blurs = [c for c in calls_in(fi) if callee(ctx, fi, c) == f"{MASKING}.blur_mask"]
             ok_blur = False
             if len(blurs) == 1:
